@@ -3,7 +3,6 @@ NA['C08'] = 'Byte-identity of .idx/.rev with git and object-set equality quantif
 NA['C25'] = 'Equality of worktree bytes, modes and index with a commit over generated tree pairs is a value property.'
 NA['C27'] = 'Per-path status equality with git status over generated states is a value property.'
 NA['C28'] = 'Index/tree equality with git over operation sequences is a value property (the structural part, trees written only through the validated Tree.Encode, is C04).'
-NA['C44'] = 'Diff completeness over tree pairs is a value property.'
 NA['C45'] = 'Patch text applicability with git apply is a value property.'
 NA['C46'] = 'Line attribution over histories is a value property.'
 NA['C49'] = 'Matcher results over patterns x paths compared with git check-ignore are value properties.'
